@@ -164,12 +164,14 @@ def judgeC20 (id rest impl : String) : Verdict :=
       nt := true, note := if oi then "" else s!"valid={e.valid} exit={r.exit}" }
   else if cmd == "validate" || cmd == "v" then
     let vG := (optVal c.toks "--video").isSome; let aG := (optVal c.toks "--audio").isSome
-    let specValid := (vG || aG) && (!vG || ((c.file "v").map hexFileValid).getD false) && (!aG || ((c.file "a").map hexFileValid).getD false)
+    -- the property's own reading (`inputFrame`); `C20_validate_char` proves the model's `hexFileValid` is this
+    let specValid := (vG || aG) && (!vG || (inputFrame (c.file "v")).isSome) && (!aG || (inputFrame (c.file "a")).isSome)
+    let modelValid := (vG || aG) && (!vG || ((c.file "v").map hexFileValid).getD false) && (!aG || ((c.file "a").map hexFileValid).getD false)
     let text := match r.rep with | some b => (String.fromUTF8? (ByteArray.mk b.toArray)).getD "" | none => r.stdout
     let saysValid := contains text "\"valid\":true" || contains text "\"valid\": true" || contains text "Validation successful"
     let saysInvalid := contains text "\"valid\":false" || contains text "\"valid\": false" || contains text "Validation failed"
     let oi := noHang && r.exit == "0" && (saysValid == specValid) && (saysInvalid == !specValid)
-    { corr := true, oi := oi, om := true, nt := true, note := if oi then "" else s!"spec={specValid} exit={r.exit}" }
+    { corr := saysValid == modelValid, oi := oi, om := modelValid == specValid, nt := true, note := if oi then "" else s!"spec={specValid} exit={r.exit}" }
   else
     -- info
     match c.file "i" with
